@@ -10,8 +10,12 @@
 //     `<Vec<u8> as From<&[u8]>>::from`, and an assume_specification for it is rejected as "signature does not match")
 //   * `StateVector`, `AwarenessUpdate`: OPAQUE stand-ins; `encode_v1` / `decode_v1` are trusted stand-ins whose results are
 //     the uninterpreted functions sv_enc / sv_dec, au_enc / au_dec with ONE assumed law each (A-SV, A-AU below)
-//   * strings: `write_string` has the real body (str's bytes = uninterpreted `utf8`); `read_string` is a TRUSTED stand-in
-//     (the real body is `unsafe { from_utf8_unchecked(..) }`, DESIGN A9) returning `from_utf8` of the buffer; assumed law A-STR
+//   * strings: `write_string` AND `read_string` have the real bodies (str's bytes = uninterpreted `utf8`).  `read_string` is
+//     `let buf = self.read_buf()?; std::str::from_utf8(buf).map_err(|_| Error::UnexpectedValue)` since /repo 6f5f4d8 (before:
+//     `unsafe { from_utf8_unchecked(..) }`, DESIGN A9 -- invalid UTF-8 decoded "successfully"); the real closure is kept and
+//     annotated (@closure).  ONE trusted std stand-in: `vx_from_utf8` for `std::str::from_utf8` (SUB, logged): Ok exactly for
+//     `valid_utf8(bytes)` and then the string `from_utf8(bytes)` (both uninterpreted).  Assumed laws: A-STR
+//     from_utf8(utf8(s)) == s, A-STR2 valid_utf8(utf8(s)).  Spec decoder of a string: `dec_str` (None for invalid UTF-8).
 #![allow(unused_imports, unused_variables, unused_mut, dead_code, unused_parens, unused_braces, unused_assignments)]
 use vstd::prelude::*;
 use vstd::slice::*;
@@ -109,13 +113,21 @@ impl AwarenessUpdate {
     }
 }
 
-/// the UTF-8 bytes of a string / the string `from_utf8_unchecked` makes of a byte buffer
+/// the UTF-8 bytes of a string / the string `std::str::from_utf8` makes of a VALID byte buffer / validity of a byte buffer
 pub uninterp spec fn utf8(s: Seq<char>) -> Seq<u8>;
 pub uninterp spec fn from_utf8(b: Seq<u8>) -> Seq<char>;
+pub uninterp spec fn valid_utf8(b: Seq<u8>) -> bool;
 
 /// A-STR (ASSUMED law): decoding the UTF-8 bytes of a string gives the string back
 #[verifier::external_body] pub proof fn law_utf8_round_trip(s: Seq<char>)
     ensures from_utf8(utf8(s)) == s,
+{
+}
+
+/// A-STR2 (ASSUMED law): the bytes of a string (what `write_string` writes: `str::as_bytes`) are valid UTF-8 (a `str` is
+/// valid UTF-8 by its type invariant)
+#[verifier::external_body] pub proof fn law_utf8_valid(s: Seq<char>)
+    ensures valid_utf8(utf8(s)),
 {
 }
 
@@ -139,21 +151,47 @@ pub trait WriteStr: Write {
 
 impl<W: Write> WriteStr for W {}
 
+/// std `core::str::Utf8Error`: opaque stand-in (never inspected: the real closure is `|_| Error::UnexpectedValue`)
+pub struct Utf8ErrorStandIn;
+
+/// TRUSTED std stand-in (A9'): `std::str::from_utf8` -- "Converts a slice of bytes to a string slice. ... Returns Err if the
+/// slice is not UTF-8": Ok exactly for the valid byte strings, and then the string those bytes spell
+#[verifier::external_body] pub fn vx_from_utf8(buf: &[u8]) -> (r: Result<&str, Utf8ErrorStandIn>)
+    ensures
+        r is Ok <==> valid_utf8(buf@),
+        r is Ok ==> r->Ok_0@ == from_utf8(buf@),
+{
+    std::str::from_utf8(buf).map_err(|_| Utf8ErrorStandIn)
+}
+
+/// what `Read::read_string` computes on ANY byte string: a length-prefixed buffer that must be valid UTF-8.
+/// None = Err (truncated / over-long length prefix, or invalid UTF-8), Some((chars, k)) = the string from the first k bytes
+pub open spec fn dec_str(s: Seq<u8>) -> Option<(Seq<char>, nat)> {
+    match dec_buf(s) {
+        None => None,
+        Some((b, k)) => if valid_utf8(b) { Some((from_utf8(b), k)) } else { None },
+    }
+}
+
 pub trait ReadStr: Read {
-    /// TRUSTED stand-in for `Read::read_string` (real body: `unsafe { from_utf8_unchecked(self.read_buf()?) }`, not
-    /// ingestible and undefined behaviour on non-UTF-8 input, DESIGN A9): read_buf + the uninterpreted conversion
-    #[verifier::external_body] fn read_string(&mut self) -> (res: Result<&str, Error>)
+    // the REAL body of `Read::read_string` (extension-trait position like read_buf, see units/lib0_common/base.rs SLICING)
+    /*@extract yrs/src/encoding/read.rs | trait Read: Sized | fn read_string | rules=SUB(from=std::str::from_utf8(buf);;to=vx_from_utf8(buf))
+    @ret res
+    @sig
         requires
             old(self).wf(),
         ensures
             final(self).wf(),
+            suffix_of(old(self).rest(), final(self).rest()),
             match dec_buf(old(self).rest()) {
-                Some((b, k)) => res is Ok && res->Ok_0@ == from_utf8(b) && k <= old(self).rest().len() && final(self).rest() == old(self).rest().skip(k as int),
-                None => res is Err && suffix_of(old(self).rest(), final(self).rest()),
+                Some((b, k)) => k <= old(self).rest().len() && final(self).rest() == old(self).rest().skip(k as int)
+                    && (valid_utf8(b) ==> res is Ok && res->Ok_0@ == from_utf8(b))
+                    && (!valid_utf8(b) ==> res is Err && res->Err_0 is UnexpectedValue),
+                None => res is Err,
             },
-    {
-        unimplemented!()
-    }
+    @closure 1 `|_e: Utf8ErrorStandIn| -> (vx_e: Error)`
+        ensures vx_e is UnexpectedValue,
+    @*/
 }
 
 impl<R: Read> ReadStr for R {}
